@@ -18,7 +18,8 @@ Record case := {
   c_dep : deployment;
   c_blocks : list block;
   c_edges : list edge;
-  c_dumps : list dump
+  c_dumps : list dump;
+  c_inter : list (replication * replication * replication)   (* (a, b, what the real `Replication::intersect` answers) *)
 }.
 
 (** generic insertion sort with a boolean order, for canonical forms *)
@@ -53,12 +54,23 @@ Definition model_links (c : case) : list link := links (c_dep c) (c_blocks c) (c
 Definition model_ports (c : case) : list port :=
   match c_dep c with Local _ => [] | Remote _ => port_offsets (model_links c) end.
 
+Definition repl_eqb (a b : replication) : bool :=
+  match a, b with
+  | RUnlimited, RUnlimited | RHost, RHost | ROne, ROne => true
+  | RLimited n, RLimited m => Nat.eqb n m
+  | _, _ => false
+  end.
+(** the requirement of a block that inherits two requirements (`.replication(r)` on a block,
+    two-input blocks, zip's `One`) is their intersection *)
+Definition inter_matches (c : case) : bool :=
+  forallb (fun x => let '(a, b, r) := x in repl_eqb (intersect a b) r) (c_inter c).
+
 Definition dump_matches (c : case) (d : dump) : bool :=
   leqb rep_eqb (sort rep_ltb (model_reps c)) (sort rep_ltb (h_reps d)) &&
   leqb link_eqb (sort link_ltb (model_links c)) (sort link_ltb (h_links d)) &&
   leqb port_eqb (sort port_ltb (model_ports c)) (sort port_ltb (h_ports d)).
 
-Definition corr_ok (c : case) : bool := forallb (dump_matches c) (c_dumps c).
+Definition corr_ok (c : case) : bool := forallb (dump_matches c) (c_dumps c) && inter_matches c.
 
 (** ---- the property, on the dumps themselves ---- *)
 Definition hosts_of (d : deployment) : list nat :=
@@ -132,8 +144,10 @@ Definition ports_ok (c : case) (d : dump) : bool :=
       forallb (fun l => existsb (fun p => demux_eqb (fst p) (demux_of l)) (h_ports d)) (h_links d)
   end.
 
+(** (e) combined requirements: the intersection table answered by the code is the
+    specified one (One below Host below Limited(min) below Unlimited) *)
 Definition prop_ok (c : case) : bool :=
-  all_equal c && forallb (fun d => placement_ok c d && links_ok c d && ports_ok c d) (c_dumps c).
+  all_equal c && forallb (fun d => placement_ok c d && links_ok c d && ports_ok c d) (c_dumps c) && inter_matches c.
 
 Definition known_class (c : case) : N := 0%N.
 
